@@ -707,6 +707,18 @@ def catalogue():
             cases.append((("bin", op, lit(a), lit(b)), "plain"))
             cases.append((("bin", op, lit(b), lit(a)), "plain"))
             cases.append((("bin", op, neg(lit(a)), neg(lit(b))), "plain"))
+    # round 7: X op W(Y op2 Z) — a unary wrapper around a binary operation on the RIGHT of another operation, all three
+    # leaves distinct (a register handed down to the wrapper's operand must not overwrite the parked left operand);
+    # rendered with one variable per leaf (mode 0; the `*` trees inside a capturing function, mode 2)
+    for x, y, z in (("9", "5", "3"), ("B9", "B5", "B3"), ("7.5", "2.5", "1.25"), ("100", "7", "9")):
+        for op in ("+", "-", "*"):
+            for op2 in ("+", "-", "*"):
+                inner = ("bin", op2, lit(y), lit(z))
+                for wrapped in (neg(inner), neg(neg(inner))):
+                    for t in (("bin", op, lit(x), wrapped), ("bin", op, wrapped, lit(x)), ("bin", op, ("bin", op2, lit(x), lit(z)), wrapped)):
+                        FORCED_MODE[render(t)] = 0 if op != "*" else 2
+                        cases.append((t, "plain"))
+                        cases.append((t, "list"))
     # the SAME variable on both sides of every operator (`x - x`, `x xor x`, `x / x` ...), per kind
     for x in ("5", "0", "2147483647", "B7", "B0", "B170141183460469231731687303715884105727", "1.5", "0.0", "0b101", "0b0",
               "0b11111111", "2147483648"):
